@@ -139,6 +139,7 @@ def scene_case(spec):
     kind = spec["kind"]
     multi = spec["idx"] % 3 != 0
     rand_t = spec["idx"] % 3 == 2
+    given_problem = None
     if kind == "poly":
         radi, shape, verts, src, att = build_polyhedron(rng, nb, multi, rand_t)
         diag = float(np.linalg.norm(verts.max(axis=0) - verts.min(axis=0)))
@@ -150,6 +151,7 @@ def scene_case(spec):
         radi = S.build(cfg)
         src = S.draw_inside(rng, cfg["dims"])
         shape = "shoebox"
+        given_problem = S.materials_in_force(radi, cfg)
         att = cfg["att"]
     mode = ["long", "short", "coarse", "tiny"][spec["idx"] % 4]
     c, dt, dur = P.draw_timing(rng, dict(dims=cfg["dims"]), K, mode, radi, src, [])
@@ -157,6 +159,8 @@ def scene_case(spec):
                src=np.asarray(src).tolist(), c=c, dt=dt, dur=dur, mode=mode, kind=kind,
                seed=spec["seed"], idx=spec["idx"])
     out["sample"] = tag
+    if given_problem:
+        out["prop_failures"].append(dict(test="given_material", case=tag, what="the materials in force are not the given ones: " + given_problem))
     for k in ["shape_" + shape, "order_%d" % K, "bands_%d" % nb, "window_" + mode,
               "tables_random" if rand_t else ("multi_dir_diffuse" if multi else "one_dir_diffuse")]:
         out["dist"][k] = 1
